@@ -104,7 +104,7 @@ fn build_case(data: &[u16], tier: Tier, max_depth: u8) -> Option<(usize, Vec<Sea
         let mut spec = spec;
         // (a related position of a heavy storm must not be searched to a fixed depth either)
         if let (Limit::Depth(_), Some((pos, _))) = (&spec.limit, build(&spec)) {
-            if pos.count(true, crate::refchess::Kind::Q) + pos.count(false, crate::refchess::Kind::Q) > 12 {
+            if heavy_extra(&pos) > 20 {
                 spec.limit = Limit::MoveTime(1 + t.pick(20) as u32);
             }
         }
